@@ -221,7 +221,7 @@ SPECS = {
                 nontrivial=lambda g, inp: len(inp) > 0,
                 rule="C01/C02/C08 grammars; each sampled accepted input is also run extended by one token; "
                      "non-trivial = non-empty input"),
-    "C04": Spec("C04", CORE + SPANS + ITER + ["RepUnit"] * 3 + EMIT + RECOVER + DECOR + CTX + ["ExtWrap"] * 3, obs_errs, sem_obs=lambda r: (r.kind,), emit_bias=0.2,
+    "C04": Spec("C04", CORE + SPANS + ITER + ["RepUnit"] * 3 + EMIT + RECOVER + DECOR + CTX + ["ExtWrap"] * 3 + ["Skip"], obs_errs, sem_obs=lambda r: (r.kind,), emit_bias=0.2,
                 ekinds=("rich", "simple", "empty"), ikinds=("str", "slice"),
                 nontrivial=lambda g, inp: len(inp) > 0 and has_head(g, {"IgnoreThen", "ThenIgnore", "Ignored", "To", "ToSlice",
                     "ToSpan", "DelimitedBy", "PaddedBy", "RepUnit", "Filter", "TryMap", "Validate", "Collect", "ExtWrap"}),
@@ -279,15 +279,17 @@ SPECS = {
     "C15": Spec("C15", CORE + ITER + CTX * 5 + ["MapWith"], obs_vv, ekinds=("rich",),
                 nontrivial=lambda g, inp: len(inp) > 0 and has_head(g, set(CTX)),
                 rule="C01/C02 grammars with with_ctx / ignore_with_ctx / then_with_ctx / map_ctx providers, configure()d just and "
-                     "repeated and context-reading map_with at random nodes; non-trivial = a provider present, non-empty input"),
+                     "repeated (configure and try_configure: exactly / at_least / at_most / nothing set, and a try_configure whose closure returns an error for an "
+                     "empty context) and context-reading map_with at random nodes; non-trivial = a provider present, non-empty input"),
     "C17": Spec("C17", CORE + ITER + DECOR * 6, obs_full, sem_obs=obs_vv_emis, ekinds=("rich",),
                 nontrivial=lambda g, inp: has_head(g, set(DECOR)),
                 rule="C01/C02 grammars with labelled / as_context / map_err at random nodes, Rich errors; non-trivial = a decoration present"),
-    "C18": Spec("C18", CORE + ITER + RECOVER + ["MapWith"] * 6 + ["FoldlWith", "FoldrWith"], obs_vv, ekinds=("rich",), ikinds=("str", "slice"),
+    "C18": Spec("C18", CORE + ITER + RECOVER + ["MapWith"] * 6 + ["FoldlWith", "FoldrWith"] + ["Skip"] * 2, obs_vv, ekinds=("rich",), ikinds=("str", "slice"),
                 nontrivial=lambda g, inp: len(inp) > 0 and has_head(g, {"MapWith", "FoldlWith", "FoldrWith", "IMapWith"}),
                 rule="C01/C02/C08 grammars with state-observing map_with / foldl_with / foldr_with at random nodes (the inspector "
-                     "hashes every token and snapshots on save); non-trivial = an observation present, non-empty input"),
-    "C20": Spec("C20", CORE + SPANS + ITER + EMIT + RECOVER + DECOR + CTX + ["ExtWrap"], lambda r: (r.kind,), ekinds=("rich", "empty", "cheap", "simple"),
+                     "hashes every token and snapshots on save), tokens also consumed through InputRef::skip in custom parsers; "
+                     "non-trivial = an observation present, non-empty input"),
+    "C20": Spec("C20", CORE + SPANS + ITER + EMIT + RECOVER + DECOR + CTX + ["ExtWrap", "Skip"], lambda r: (r.kind,), ekinds=("rich", "empty", "cheap", "simple"),
                 ikinds=("str", "slice"), nontrivial=lambda g, inp: True,
                 rule="grammars over every modelled constructor (repetition items and skip parsers syntactically consuming), "
                      "all error types; observable = the verdict class (OK / FAIL / PANIC / TIMEOUT); plus implementation-only runs with the verdict known by "
